@@ -175,8 +175,15 @@ fn awaited_oracle() -> Oracle {
                     if fin != Some(*st) {
                         out.push(Finding::new("await-status-changed", "ack:status-changed", format!("await of {} yielded {} but a later poll yields {:?}", target.op.short(), status_short(st), fin.map(|s| status_short(&s)))));
                     }
-                    // the next op of this thread, if it is a read of the same key, tells whether the effect is visible
+                    // the next op of this thread tells whether the effect is visible: a read of the same key, or the total
+                    // weight right after an accepted delete (no other writer in these programs)
                     if let Some(next) = run.call(c.thread, c.idx + 1) {
+                        if let (Op::TotalWeight, Res::Weight(w), Op::Delete { k }, true) = (&next.op, &next.res, &target.op, *st == CommandStatus::Accepted) {
+                            let released = run.obs_init.entry(*k).and_then(|e| run.obs_init.weight_of_id(e.2)).unwrap_or(0);
+                            if *w != run.obs_init.weight_used - released {
+                                out.push(Finding::new("accepted-effect-not-visible", "ack:accepted-delete-weight-still-counted", format!("{} was acknowledged Accepted but total_weight_used() right after the await is {} (before the delete: {}, the key weighs {})", target.op.short(), w, run.obs_init.weight_used, released)));
+                            }
+                        }
                         if let (Op::Read { k, .. }, Res::Read(got)) = (&next.op, &next.res) {
                             if Some(*k) == target.op.key() && *st == CommandStatus::Accepted {
                                 match &target.op {
@@ -248,6 +255,8 @@ pub fn def(ctx: &Ctx) -> PropertyDef {
         mk("await/delete;delete unawaited;await both", vec![Op::Put { k: 1, w: Some(2), ttl_ms: None }], vec![vec![Op::Delete { k: 1 }, Op::Delete { k: 1 }, Op::Await { call: 1 }, Op::Await { call: 0 }]]),
         mk("await/upsert-weight;await || {tick} sweeping k", vec![Op::Put { k: 1, w: Some(2), ttl_ms: Some(1000) }, Op::Advance { ms: 3000 }], vec![vec![Op::Upsert { k: 1, value: true, w: Some(3), ttl_ms: None, remove_ttl: false }, Op::Await { call: 0 }], vec![Op::Tick]]),
         mk("await/evicting-put;await || upsert-weight(a);await", vec![Op::Put { k: 1, w: Some(6), ttl_ms: None }, Op::Put { k: 2, w: Some(4), ttl_ms: None }], vec![vec![Op::Put { k: 3, w: Some(7), ttl_ms: None }, Op::Await { call: 0 }], vec![Op::Upsert { k: 1, value: true, w: Some(5), ttl_ms: None, remove_ttl: false }, Op::Await { call: 0 }]]),
+        mk("await/delete;await;total_weight", vec![Op::Put { k: 1, w: Some(2), ttl_ms: None }, Op::Put { k: 2, w: Some(3), ttl_ms: None }], vec![vec![Op::Delete { k: 1 }, Op::Await { call: 0 }, Op::TotalWeight]]),
+        mk("await/delete;await;total_weight /ttl", vec![Op::Put { k: 1, w: Some(2), ttl_ms: Some(5000) }, Op::Put { k: 2, w: Some(3), ttl_ms: None }], vec![vec![Op::Delete { k: 1 }, Op::Await { call: 0 }, Op::TotalWeight]]),
         // the status an acknowledgement resolves to is the command's real outcome: a duplicate queued behind its twin
         mk("await/put_ttl(k);put_ttl(k) unawaited;await the second;get(k)", vec![], vec![vec![Op::Put { k: 1, w: Some(2), ttl_ms: Some(5000) }, Op::Put { k: 1, w: Some(3), ttl_ms: Some(5000) }, Op::Await { call: 1 }, Op::Read { k: 1, variant: ReadVariant::Get }]]),
         mk("await/put(k);put(k) unawaited;await the second;get(k)", vec![], vec![vec![Op::Put { k: 1, w: Some(2), ttl_ms: None }, Op::Put { k: 1, w: Some(3), ttl_ms: None }, Op::Await { call: 1 }, Op::Read { k: 1, variant: ReadVariant::Get }]]),
